@@ -125,6 +125,8 @@ def build(case, work, name="plt00010"):
         gen.zero_fine(m, case["gen"]["seed"])
     if case.get("ties"):
         gen.tie_extrema(m, case["gen"]["seed"])
+    if case.get("long_max"):
+        gen.plant_long_max(m, case["gen"]["seed"])
     if case.get("poison_covered"):
         m.poisoned_cells = gen.poison_covered(m, case["gen"]["seed"])
     path = os.path.join(work, name)
